@@ -1106,6 +1106,11 @@ class NumpyTensor(Tensor):
         else:
             if is_numeric_dtype(self.dtype):
                 weighting = self.space.weighting
+                if isinstance(weighting, ArrayWeighting):
+                    # Index the weighting array in the same way as the data
+                    weighting = NumpyTensorSpaceArrayWeighting(
+                        np.asarray(weighting.array)[indices],
+                        weighting.exponent)
             else:
                 weighting = None
             space = type(self.space)(
